@@ -40,8 +40,9 @@ LEVEL_TEXT = (
     "spellings, and altName is involutive on the segment — proved for every name that does not mix '-' and '_' "
     "(altName_invol, respell_alt_of_pure); a witness shows mixed names like 'a_b-c' are not symmetric). "
     "update_new_last_wins / merge_last_wins (priority 'new' and merge: the last scalar item wins, whatever came "
-    "before); the other precedence clauses (priority 'old', 'new-defaults', nested merging) are validated by "
-    "oracle + function-level diff only. collect_env_single / collect_env_ignores_foreign: a DASK_ variable is "
+    "before); update_old_keeps_old (priority 'old' with scalar new values never changes an existing entry); the "
+    "other precedence clauses ('new-defaults', nested merging) are validated by "
+    "oracle + function-level diff only.collect_env_single / collect_env_ignores_foreign: a DASK_ variable is "
     "readable under its lower-cased dotted name, other variables are ignored. "
     "update/merge/collect_env/check_deprecations are "
     "modelled and diffed against the real functions on every run; serialize/deserialize and interpret_value are "
